@@ -283,6 +283,25 @@ func Scenarios() []*Scenario {
 		Steps: []SVal{more, more, last},
 		Clear: Stream{cliHeader(), reqAuth(0, "X-SCRIPTED", "eA=="), reqResponse(0), reqResponse(0), cliHeader(), reqBind(1, false)}})
 
+	// ---- a required feature that neither restarts the stream nor completes the session: the
+	// negotiator is called again without a header exchange and negotiates the next list
+	fReq := FeatSpec{Kind: "custom", Space: "urn:x:req", Local: "q", Neg: true, LReq: true}
+	add(&Scenario{Name: "init-required-then-more", Entry: "initiator/required-without-ready", Neg: "std", WantOK: true, Feats: []FeatSpec{fReq},
+		Outs:  map[int][]SVal{0: {{K: "out"}}},
+		Clear: Stream{srvHeader("1.0", true), featuresSeg(false, advCustom(0, fReq, true, false)), emptyFeatures(false)}})
+	add(&Scenario{Name: "recv-required-then-more", Entry: "receiver/required-without-ready", Neg: "std", Recv: true, WantOK: true, Feats: []FeatSpec{fReq, fReady},
+		Outs:  map[int][]SVal{0: {{K: "out"}}, 1: {{K: "out", Mask: bReady}}},
+		Clear: Stream{cliHeader(), reqCustom(0, fReq), reqCustom(1, fReady)}})
+
+	// ---- the peer pipelines its next stream header behind the element that restarts the
+	// stream, in the same Read: the bytes sit in the old decoder's buffer and are lost
+	add(&Scenario{Name: "init-pipelined-behind-success", Entry: "initiator/pipelined-behind-restart", Neg: "std", Bits: bSecure, Feats: sb,
+		Clear: Stream{srvHeader("1.0", true), featuresSeg(false, advSASL(0, "PLAIN")),
+			SegOf(append(saslSuccess(0).Units, srvHeader("1.0", true).Units...)...),
+			featuresSeg(false, advBind(1)), bindResult(false)}})
+	add(&Scenario{Name: "recv-pipelined-behind-auth", Entry: "receiver/pipelined-behind-restart", Neg: "std", Recv: true, Bits: bSecure, Feats: sb,
+		Clear: Stream{cliHeader(), SegOf(append(reqAuth(0, "PLAIN", plainOK).Units, cliHeader().Units...)...), reqBind(1, false)}})
+
 	// ---- a voluntary feature that reports Ready, followed by a failing one (features.go keeps the bit)
 	// (the second one is required, so the voluntary one is always picked first)
 	add(&Scenario{Name: "init-volready-then-fail", Entry: "initiator/voluntary-reports-ready", Neg: "std", Feats: []FeatSpec{fVol, fVol2},
